@@ -597,7 +597,13 @@ def c14_scope(tier):
         "unknown-signal": ['Signal bad = ("not-a-real-signal", 1);', 'Signal bad = ok1 | "not-a-real-signal";'],
         "reserved-signal": ['Signal bad = ("signal-W", 1);', 'Signal bad = ok1 | "signal-W";', 'Memory mw: "signal-W";'],
         "memory-type-contradiction": ['Memory mt: "signal-M";\nmt.write(("signal-B", 1));'],
-        "second-write": ['Memory m2: "signal-M";\nm2.write(1 | "signal-M");\nm2.write(2 | "signal-M");'],
+        "second-write": ['Memory m2: "signal-M";\nm2.write(1 | "signal-M");\nm2.write(2 | "signal-M");',
+                         # the same cell written again from a nested scope, by every iteration of a loop, by every call of a function
+                         'Memory m3: "signal-M";\nm3.write(1 | "signal-M");\nfor j3 in 0..1 {\n  m3.write(2 | "signal-M");\n}',
+                         'Memory m4: "signal-M";\nfor j4 in 0..3 {\n  m4.write(j4 | "signal-M");\n}',
+                         'Memory m5: "signal-M";\nfor j5 in 0..1 {\n  m5.write(1 | "signal-M");\n}\nfor k5 in 0..1 {\n  m5.write(2 | "signal-M");\n}',
+                         'Memory m6: "signal-M";\nfunc w6(Signal v) {\n  m6.write(v | "signal-M");\n  return v;\n}\nSignal w6a = w6(ok1);\nSignal w6b = w6(ok2);',
+                         'Memory m7: "signal-M";\nm7.write(1 | "signal-M", set=ok1 > 3, reset=ok1 < 0);\nfor j7 in 0..1 {\n  m7.write(2 | "signal-M", when=ok2 > 0);\n}'],
         "zero-step": ["for z in 0..3 step 0 {\n  Signal zz = 1;\n}", "int st = 0;\nfor z in 0..3 step st {\n  Signal zz = 1;\n}"],
         "non-comparison-before-colon": ["Signal bad = (ok1 + 1) : 5;"],
         "syntax-error": ["Signal bad = = 3;", "Signal bad 3;", "for i in { }"],
@@ -623,7 +629,7 @@ def c14_scope(tier):
             for ename, fn in embeddings.items():
                 if tier == "quick" and ename not in quick_emb:
                     continue
-                if rule == "recursion" and ename != "top":
+                if (rule == "recursion" or "func " in sn) and ename != "top":
                     continue
                 out.append((f"{rule}#{si}@{ename}", fn(sn)))
     return out
@@ -632,7 +638,13 @@ def c14_scope(tier):
 def c14_accepted_hosts():
     """Controls: the hosts without a violating construct must be accepted."""
     PRE = 'Signal ok1 = ("signal-A", 1);\nSignal ok2 = ok1 + 1;\n'
-    return [("host", "func helper(Signal a) { return a + 1; }\n" + PRE + "Signal c = helper(ok1);\nfor it in 0..2 {\n  Signal t = ok2 + it;\n}\nSignal ok3 = ok2 * 2;\n")]
+    M = ' | "signal-M"'
+    return [("host", "func helper(Signal a) { return a + 1; }\n" + PRE + "Signal c = helper(ok1);\nfor it in 0..2 {\n  Signal t = ok2 + it;\n}\nSignal ok3 = ok2 * 2;\n"),
+            # one write per cell: a cell of its own per iteration / per call, an outer cell written by a loop that runs once, two cells
+            ("cell-per-iteration", PRE + 'for it in 0..3 {\n  Memory c1: "signal-M";\n  c1.write((ok1 + it)' + M + ');\n  Signal r1 = c1.read();\n}\n'),
+            ("cell-per-call", PRE + 'func keep(Signal v) {\n  Memory c2: "signal-M";\n  c2.write(v' + M + ', when=v > 0);\n  return c2.read();\n}\nSignal k1 = keep(ok1);\nSignal k2 = keep(ok2);\n'),
+            ("outer-cell-one-iteration", PRE + 'Memory c3: "signal-M";\nfor it in 0..1 {\n  c3.write(ok1' + M + ');\n}\nSignal r3 = c3.read();\n'),
+            ("two-cells", PRE + 'Memory c4: "signal-M";\nMemory c5: "signal-M";\nc4.write(ok1' + M + ');\nfor it in 0..1 {\n  c5.write(ok2' + M + ');\n}\nSignal r4 = c4.read() + c5.read();\n')]
 
 
 def c17_library_scope(tier):
